@@ -220,7 +220,9 @@ func gen(g *core.G) {
 		}
 	}
 	for i := 0; i < 3500*g.Scale; i++ { // common type of related pairs, the wider one second on purpose
-		lg.Alias = i%8 == 0
+		// no alias wrappers here: CommonType and Generalize do not look through a user alias (it is returned / merged as an
+		// opaque type), and the model has no alias constructor — the expansion would be compared with the unexpanded answer
+		lg.Alias = false
 		a := lg.Ty(1 + g.Rng.Intn(3))
 		var b lat.Ty
 		switch i % 4 {
@@ -237,7 +239,7 @@ func gen(g *core.G) {
 		}
 	}
 	for i := 0; i < 2500*g.Scale; i++ {
-		lg.Alias = i%8 == 0
+		lg.Alias = false
 		g.Emit("gen " + s(lg.Ty(1+g.Rng.Intn(4))))
 	}
 
